@@ -1294,6 +1294,70 @@ Proof.
   exists vs, o0. auto.
 Qed.
 
+
+(* ---------- call by value: arguments are evaluated strictly left to right ---------- *)
+(* Every argument is evaluated in the state left by the arguments before it, and its value is
+   fixed at that point: what a later argument does (e.g. a call that mutates the variable an
+   earlier argument named) cannot reach it, and what an earlier argument did is seen by it.
+   This is Lang.evals_with threading the state through the list; stated here for any position. *)
+Lemma evals_cons_inv : forall n e r s o vs s',
+  evals P eps n (e :: r) s = (o, Ok (vs, s')) ->
+  exists o1 v s1 o2 vs', eval P eps n e s = (o1, Ok (v, s1)) /\
+    evals P eps n r s1 = (o2, Ok (vs', s')) /\ vs = v :: vs' /\ o = o1 ++ o2.
+Proof.
+  intros n e r s o vs s' H. rewrite evals_cons in H.
+  bind_inv H. destruct a as [v s1]. bind_inv H. destruct a as [vs' s2].
+  unfold OkM in H. inversion H; subst. rewrite app_nil_r. exists o0, v, s1, o2, vs'. auto.
+Qed.
+
+Lemma args_left_to_right : forall n pre e post s o vs s',
+  evals P eps n (pre ++ e :: post) s = (o, Ok (vs, s')) ->
+  exists o1 vpre sk o2 v sk1 o3 vpost,
+    evals P eps n pre s = (o1, Ok (vpre, sk)) /\
+    eval P eps n e sk = (o2, Ok (v, sk1)) /\
+    evals P eps n post sk1 = (o3, Ok (vpost, s')) /\
+    vs = vpre ++ v :: vpost /\ length vpre = length pre /\ o = o1 ++ o2 ++ o3.
+Proof.
+  induction pre as [|e0 pre IH]; intros e post s o vs s' H; cbn [app] in H.
+  - apply evals_cons_inv in H. destruct H as (o1 & v & s1 & o2 & vs' & He & Hr & -> & ->).
+    exists [], [], s, o1, v, s1, o2, vs'. rewrite evals_nil. cbn [app length].
+    refine (conj eq_refl (conj He (conj Hr (conj eq_refl (conj eq_refl eq_refl))))).
+  - apply evals_cons_inv in H. destruct H as (o1 & v0 & s1 & o2 & vs' & He0 & Hr & -> & ->).
+    apply IH in Hr.
+    destruct Hr as (p1 & vpre & sk & p2 & v & sk1 & p3 & vpost & Hpre & He & Hpost & -> & Hlen & ->).
+    exists (o1 ++ p1), (v0 :: vpre), sk, p2, v, sk1, p3, vpost.
+    rewrite evals_cons, He0. cbn [bindM]. rewrite Hpre. cbn [bindM OkM app length].
+    rewrite app_nil_r, Hlen, <- app_assoc.
+    refine (conj eq_refl (conj He (conj Hpost (conj eq_refl (conj eq_refl eq_refl))))).
+Qed.
+
+(* an argument that is a plain variable: the parameter gets the variable's value as it is after
+   the earlier arguments and before the later ones were evaluated *)
+Lemma arg_var_snapshot : forall n pre a la post s o vs s',
+  evals P eps (S n) (pre ++ EVar a la :: post) s = (o, Ok (vs, s')) ->
+  exists o1 vpre sk va,
+    evals P eps (S n) pre s = (o1, Ok (vpre, sk)) /\
+    lookup_env la a (env sk) = Some va /\
+    nth_error vs (length pre) = Some va.
+Proof.
+  intros n pre a la post s o vs s' H. apply args_left_to_right in H.
+  destruct H as (o1 & vpre & sk & o2 & v & sk1 & o3 & vpost & Hpre & He & _ & -> & Hlen & _).
+  rewrite eval_var_S in He. destruct (lookup_env la a (env sk)) as [va|] eqn:Hl; [|discriminate He].
+  assert (Hv : va = v) by (inversion He; reflexivity). subst va.
+  exists o1, vpre, sk, v. refine (conj Hpre (conj Hl _)).
+  rewrite <- Hlen, nth_error_app2 by lia. now rewrite Nat.sub_diag.
+Qed.
+
+(* parameters are bound positionally: the i-th parameter name gets the i-th argument value *)
+Lemma bind_params_pairs : forall fid ls ps vs k acc,
+  map (fun sl => (s_name sl, s_val sl)) (bind_params fid ls ps vs k acc) =
+  rev (combine ps vs) ++ map (fun sl => (s_name sl, s_val sl)) acc.
+Proof.
+  induction ps as [|p ps IH]; intros vs k acc; [reflexivity|].
+  destruct vs as [|v vs]; [reflexivity|].
+  cbn [bind_params combine rev]. rewrite IH. cbn [map s_name s_val]. now rewrite <- app_assoc.
+Qed.
+
 End Steps.
 
 (* ================================================================== *)
